@@ -4,6 +4,11 @@ CONSTANTS
   MaxReq = 5
   PrintCases = FALSE
   RichRequests = FALSE
+  StartPresent = FALSE
+  WAddOk = 1
+  WAddBad = 1
+  WCommit = 1
+  WMaint = 1
   Deviations = {}
 CONSTRAINT Bound
 VIEW View
